@@ -159,7 +159,10 @@ func checkC04(ix *index, add addFn) {
 			if i >= ix.end() {
 				break
 			}
-			if (ix.tr[i].Kind == "cut" || ix.tr[i].Kind == "close") && ix.tr[i].Conn == 1 {
+			// only the network ends the link here: the client closing it on
+			// its own (e.g. because it rejected a well-formed packet) does
+			// not excuse what is still owed
+			if ix.tr[i].Kind == "cut" && ix.tr[i].Conn == 1 {
 				ended = true
 			}
 			if ix.tr[i].Kind == "write" && ix.tr[i].Err != "" {
@@ -527,7 +530,7 @@ func checkC11(ix *index, add addFn) {
 			}
 			continue
 		}
-		if ix.tr[o.ret].T > due {
+		if ix.tr[o.ret].T > due && (len(sc.Cfg.Yields) == 0 || ctxCause) {
 			add("returns", fmt.Sprintf("op %d (%s) returned %dns after %s", k, op.Kind, ix.tr[o.ret].T-due, why), feat)
 			continue
 		}
@@ -584,8 +587,8 @@ func checkC11(ix *index, add addFn) {
 		ok := false
 		for i := range ix.tr {
 			r := &ix.tr[i]
-			if r.Kind == "sample" && r.Conn == conn && r.B && r.T == at {
-				ok = true
+			if r.Kind == "sample" && r.Conn == conn && r.B && (r.T == at || (len(sc.Cfg.Yields) > 0 && r.T >= at && i < ix.end())) {
+				ok = true // (with a parked Close() only "closed by the time of judgement")
 			}
 		}
 		if !ok {
@@ -663,6 +666,14 @@ func checkC11Reconn(ix *index, add addFn) {
 			}
 			if op.Token == "must-return" && (o.ret < 0 || o.ret >= ix.end()) && ix.judge >= 0 {
 				add("returns", "reconnecting Disconnect (called while connected / backing off) had not returned when the run was judged", feat)
+			} else if op.Token == "must-return" && op.CtxTimeoutUs == 0 && len(sc.Cfg.Yields) == 0 && o.ret >= 0 {
+				// promptly: in these phases the loop is parked in a select that
+				// contains the disconnect request, so nothing on the fake clock
+				// (back-off remainder, a further connection attempt) may pass
+				// beyond the DISCONNECT packet's own way to the broker
+				if d := ix.tr[o.ret].T - invT; d > (sc.Cfg.LatC2BUs+sc.Cfg.LatB2CUs+100)*1000 {
+					add("returns", fmt.Sprintf("reconnecting Disconnect (called while connected / backing off) returned only %dns later", d), feat)
+				}
 			}
 			// without a deadline nothing is demanded here: Disconnect's context is
 			// alive and whether the loop can observe the request in its current
@@ -990,6 +1001,14 @@ func checkRetryHandleSame(ix *index, add addFn) {
 
 // checkC19Retry: retrying client — response timeout is identifiable.
 func checkC19Retry(ix *index, add addFn) {
+	// an acknowledgement dropped with a response timeout configured: the error
+	// that reaches OnError is identifiable as RequestTimeoutError (C18's
+	// abandons rule, read as a statement about the error)
+	checkC18(ix, func(rule, detail string, feat map[string]string) {
+		if rule == "abandons" {
+			add("sentinel", "no error identifiable as RequestTimeoutError: "+detail, map[string]string{"want": "reqtimeout"})
+		}
+	})
 	for i := range ix.tr {
 		r := &ix.tr[i]
 		if r.Kind != "onerror" {
